@@ -7,6 +7,8 @@
 (*   ref          the reference filesystem (RefFS.tla)                     *)
 (*   narch        number of archives (= write calls that appended) so far  *)
 (*   epoch        which trace is being validated (0 in model checking)     *)
+(*   hs           open file handles: handle id -> [path, k, attr, dirty,   *)
+(*                buf] (DOMAIN hs = the open ones)                         *)
 (*   last         observation of the last call (excluded from VIEW)        *)
 (*                                                                         *)
 (* Every filesystem call is one action  Do(call):  the reference decides   *)
@@ -24,11 +26,13 @@ CONSTANTS OpenFlags,          \* set of OpenFile flag encodings used by generate
           Chunks,             \* content chunk ids
           AttrVals,           \* values k>=1 for Chmod/Chown/Chtimes
           MaxContent,         \* bound on Len(content)
-          Shape(_, _, _)      \* (epoch, archive no, protos) -> arranged+sized protos
+          Shape(_, _, _),     \* (epoch, archive no, protos) -> arranged+sized protos
+          Handles,            \* handle ids for calls that keep a file open across other calls ({} = none)
+          HandleFlags         \* OpenFile flag encodings used by generated HOpen calls
 
-VARIABLES tape, tend, index, ref, narch, epoch, last
-vars == <<tape, tend, index, ref, narch, epoch, last>>
-View == <<tape, tend, index, ref, narch>>
+VARIABLES tape, tend, index, ref, narch, epoch, last, hs
+vars == <<tape, tend, index, ref, narch, epoch, last, hs>>
+View == <<tape, tend, index, ref, narch, hs>>
 
 C(op, p, q, c, k) == [op |-> op, p |-> p, q |-> q, c |-> c, k |-> k]
 
@@ -90,18 +94,75 @@ Run(st, archs) ==
        IN Run([tape |-> tape2, tend |-> ArchiveEnd(recs, st.tend), index |-> lp.idx,
                narch |-> k + 1, err |-> st.err \/ lp.err], Tail(archs))
 
+(***************************************************************************)
+(* File handles that stay open across other calls (HOpen / HWrite / HSync  *)
+(* / HClose; c.q = <<handle id>>, c.p = the path the handle was opened     *)
+(* on).  This is the write-back design of the code, not POSIX:             *)
+(*  - OpenFile creates a missing file at once (O_CREATE) but a truncation  *)
+(*    (O_TRUNC) and every write stay in the handle's buffer until Sync or  *)
+(*    Close writes the whole buffer back as ONE content update;            *)
+(*  - the buffer is loaded at the first write from whatever the handle's   *)
+(*    PATH designates then; the write-back goes to that path and carries   *)
+(*    the attributes the handle saw when it was opened;                    *)
+(*  - if the path no longer designates a regular file at write-back time   *)
+(*    (renamed, removed, replaced by a directory) the write-back is        *)
+(*    refused and nothing is appended (known finding K06: an ordinary      *)
+(*    filesystem would follow the file).                                   *)
+(***************************************************************************)
+HandleOps == {"HOpen", "HWrite", "HSync", "HClose"}
+HId(c) == c.q[1]
+HPut(f, k, v) == (k :> v) @@ f
+HDrop(f, k) == [x \in (DOMAIN f) \ {k} |-> f[x]]
+HOut(res, r, archs, h) == [res |-> res, ref |-> r, archs |-> archs, hs |-> h]
+\* what the first write of a clean handle loads
+HLoaded(h) == IF (hs[h].k \div 16) % 2 = 1 THEN <<>>
+              ELSE IF IsFile(ref, hs[h].path) THEN ref[hs[h].path].content ELSE <<>>
+HCur(h) == IF hs[h].dirty THEN hs[h].buf ELSE HLoaded(h)
+
+HStep(c) ==
+  LET p == c.p  h == HId(c) IN
+  CASE c.op = "HOpen" ->
+         LET wr == (c.k % 4) \in {1, 2}
+             cr == (c.k \div 8) % 2 = 1
+             tr == (c.k \div 16) % 2 = 1
+             ex == (c.k \div 32) % 2 = 1
+         IN IF Exists(ref, p)
+            THEN IF cr /\ ex THEN HOut("EEXIST", ref, << >>, hs)
+                 ELSE IF IsDir(ref, p) THEN HOut("EISDIR", ref, << >>, hs)      \* handles on directories are not modelled
+                 ELSE HOut("ok", ref, << >>,
+                           HPut(hs, h, [path |-> p, k |-> c.k, attr |-> ref[p].attr,
+                                        dirty |-> (tr /\ wr /\ ref[p].content # <<>>), buf |-> <<>>]))
+            ELSE IF ~cr THEN HOut("ENOENT", ref, << >>, hs)
+                 ELSE IF ParentProblem(ref, p) # "ok" THEN HOut(ParentProblem(ref, p), ref, << >>, hs)
+                 ELSE HOut("ok", RPut(ref, p, FileNode(<<>>)), << <<P("CREATE", p, p, FALSE, FileNode(<<>>))>> >>,
+                           HPut(hs, h, [path |-> p, k |-> c.k, attr |-> DefaultAttr, dirty |-> FALSE, buf |-> <<>>]))
+    [] c.op = "HWrite" ->
+         IF (hs[h].k % 4) \notin {1, 2} THEN HOut("EPERM", ref, << >>, hs)
+         ELSE HOut("ok", ref, << >>, [hs EXCEPT ![h].dirty = TRUE, ![h].buf = HCur(h) \o <<c.c>>])
+    [] c.op \in {"HSync", "HClose"} ->
+         LET after == IF c.op = "HClose" THEN HDrop(hs, h) ELSE hs IN
+         IF ~hs[h].dirty THEN HOut("ok", ref, << >>, after)
+         ELSE IF ~IsFile(ref, hs[h].path) THEN HOut("ENOENT", ref, << >>, hs)
+         ELSE LET node == [kind |-> "file", content |-> hs[h].buf, attr |-> [hs[h].attr EXCEPT !.mt = 0]]
+              IN HOut("ok", [ref EXCEPT ![hs[h].path] = node],
+                      << <<P("UPDATE", hs[h].path, hs[h].path, TRUE, node)>> >>, after)
+
+Outcome(c) ==
+  IF c.op \in HandleOps THEN HStep(c)
+  ELSE LET rr == RefStep(ref, c) IN HOut(rr.res, rr.ref, IF rr.res = "ok" THEN Archives(ref, c, rr.ref) ELSE << >>, hs)
+
 Obs(c, res, interr, napp) == [call |-> c, res |-> res, interr |-> interr, napp |-> napp]
 
 Do(c) ==
-  LET rr == RefStep(ref, c) IN
+  LET rr == Outcome(c) IN
   IF rr.res # "ok"
   THEN /\ last' = Obs(c, rr.res, FALSE, 0)
-       /\ UNCHANGED <<tape, tend, index, ref, narch, epoch>>
-  ELSE LET st == Run([tape |-> tape, tend |-> tend, index |-> index, narch |-> narch, err |-> FALSE],
-                     Archives(ref, c, rr.ref))
+       /\ UNCHANGED <<tape, tend, index, ref, narch, epoch, hs>>
+  ELSE LET st == Run([tape |-> tape, tend |-> tend, index |-> index, narch |-> narch, err |-> FALSE], rr.archs)
        IN /\ Len(st.tape) <= MaxTape
           /\ tape' = st.tape /\ tend' = st.tend /\ index' = st.index /\ narch' = st.narch
           /\ ref' = rr.ref
+          /\ hs' = rr.hs
           /\ last' = Obs(c, "ok", st.err, Len(st.tape) - Len(tape))
           /\ UNCHANGED epoch
 
@@ -119,6 +180,7 @@ Init ==
   /\ tape = InitState(0).tape /\ tend = InitState(0).tend /\ index = InitState(0).index
   /\ ref = InitState(0).ref
   /\ narch = 1
+  /\ hs = << >>
   /\ last = Obs(C("Init", Root, Root, "", 0), "ok", FALSE, 1)
 
 Mutators == {"Mkdir", "MkdirAll", "Create", "Remove", "RemoveAll", "Chmod", "Chown", "Chtimes"}
@@ -142,6 +204,16 @@ Calls ==
   \cup {C("Archive", p, m, ch, 0) : p \in {x \in Paths : x \in DOMAIN ref /\ ref[x].kind = "dir" /\ Len(x) < MaxDepth},
                                       m \in BatchMembers, ch \in Chunks}
 
+\* calls on handles that stay open: a write is generated only where chunk-level contents can express
+\* the result (the handle appends, or what it would overwrite is empty), cf. OpenOK
+HandleCalls ==
+       {C("HOpen", p, <<h>>, "", k) : p \in {x \in Paths \ {Root} : ~IsDir(ref, x)}, h \in Handles \ DOMAIN hs, k \in HandleFlags}
+  \cup {C("HWrite", hs[h].path, <<h>>, ch, 0) :
+           h \in {x \in DOMAIN hs : /\ (hs[x].k % 4) \in {1, 2}
+                                     /\ ((hs[x].k \div 4) % 2 = 1 \/ hs[x].dirty \/ HLoaded(x) = <<>>)
+                                     /\ Len(HCur(x)) < MaxContent}, ch \in Chunks}
+  \cup {C(op, hs[h].path, <<h>>, "", 0) : op \in {"HSync", "HClose"}, h \in DOMAIN hs}
+
 \* Rename can deepen a subtree beyond MaxDepth; keep the model's universe closed.
 Fits(c) == c.op = "Rename" /\ c.p \in DOMAIN ref =>
              \A s \in Subtree(ref, c.p) : Len(Rebase(s, c.p, c.q)) <= MaxDepth
@@ -158,7 +230,7 @@ OpenOK(c) ==
        IN /\ (tr => wr)
           /\ (c.c # "" => (wr /\ (ap \/ tr \/ len = 0) /\ ((isFile /\ ap /\ ~tr) => len < MaxContent)))
 ArchiveOK(c) == OpenOK(c) /\ (c.op = "Archive" => \A i \in 1..Len(c.q) : ~IsDir(ref, c.p \o <<c.q[i]>>))
-Next == \E c \in Calls : Fits(c) /\ ArchiveOK(c) /\ Do(c)
+Next == \E c \in Calls \cup HandleCalls : Fits(c) /\ ArchiveOK(c) /\ Do(c)
 
 Spec == Init /\ [][Next]_vars
 
